@@ -435,6 +435,7 @@ func vQuiesce()                       { time.Sleep(100 * time.Millisecond) }
 func vYield()                         { time.Sleep(time.Millisecond) }
 func vBlockedThreads() int            { return -1 }
 func vSchedFork(level int)            {}
+func vSchedFilter(suffix string)      {}
 func vPreemptBudget(n int)            {}
 func vTrack(p interface{}, name string) {}
 
